@@ -213,9 +213,28 @@ pub fn run_batch(
     let total = Mutex::new(Acc::default());
     let start = Instant::now();
     let nw = workers().max(1);
+    // watchdog: (index being evaluated or u64::MAX, milliseconds since `start` at which it began)
+    let slots: Vec<(AtomicU64, AtomicU64)> = (0..nw).map(|_| (AtomicU64::new(u64::MAX), AtomicU64::new(0))).collect();
+    let active = AtomicU64::new(nw as u64);
     std::thread::scope(|s| {
-        for _ in 0..nw {
-            s.spawn(|| {
+        s.spawn(|| {
+            let limit_ms = stuck_limit_s() * 1000;
+            while active.load(Ordering::SeqCst) > 0 {
+                std::thread::sleep(std::time::Duration::from_millis(200));
+                let now = start.elapsed().as_millis() as u64;
+                for (idx, began) in &slots {
+                    let i = idx.load(Ordering::SeqCst);
+                    if i != u64::MAX && now.saturating_sub(began.load(Ordering::SeqCst)) > limit_ms {
+                        report_stuck(check, seed, tier, i);
+                    }
+                }
+            }
+        });
+        for w in 0..nw {
+            let slot = &slots[w];
+            let active = &active;
+            let (next, stop, cap, budget_hit, total) = (&next, &stop, &cap, &budget_hit, &total);
+            s.spawn(move || {
                 let mut acc = Acc::default();
                 loop {
                     if stop.load(Ordering::Relaxed) {
@@ -231,7 +250,10 @@ pub fn run_batch(
                         break;
                     }
                     let want_sc = i < 3;
+                    slot.1.store(start.elapsed().as_millis() as u64, Ordering::SeqCst);
+                    slot.0.store(i, Ordering::SeqCst);
                     let (rep, sc) = check.run_index(seed, i, tier, want_sc);
+                    slot.0.store(u64::MAX, Ordering::SeqCst);
                     acc.evaluations += 1;
                     acc.runs += rep.runs.max(1);
                     acc.all_traces.insert(rep.trace_hash);
@@ -276,6 +298,8 @@ pub fn run_batch(
                 t.violations.extend(acc.violations);
                 t.samples.extend(acc.samples);
                 t.hashes.extend(acc.hashes);
+                drop(t);
+                active.fetch_sub(1, Ordering::SeqCst);
             });
         }
     });
@@ -297,6 +321,40 @@ pub fn run_batch(
         wall_s: start.elapsed().as_secs_f64(),
         budget_hit: budget_hit.load(Ordering::Relaxed),
     }
+}
+
+/// Real seconds one evaluation may take before it counts as not terminating. A run costs micro- to
+/// milliseconds; only a loop in the code under simulation that never yields gets anywhere near this.
+fn stuck_limit_s() -> u64 {
+    std::env::var("VERIF_STUCK_S").ok().and_then(|s| s.parse().ok()).unwrap_or(60)
+}
+
+pub const STUCK_RULE: &str = "run_does_not_terminate";
+
+/// An evaluation that spins without ever yielding to the simulator cannot be pre-empted on one thread
+/// and cannot be shrunk; it is reported as it is (seed, index, generated scenario) and the process ends.
+fn report_stuck(check: &dyn Erased, seed: u64, tier: Tier, index: u64) -> ! {
+    let (tx, rx) = std::sync::mpsc::channel();
+    // regenerate the scenario on the side (generation is a pure function of seed and index)
+    let sc = std::thread::scope(|s| {
+        s.spawn(|| {
+            let _ = tx.send(check.scenario(seed, index, tier));
+        });
+        rx.recv_timeout(std::time::Duration::from_secs(20)).unwrap_or(Value::Null)
+    });
+    let msg = format!("evaluation #{index} did not finish within {} s of real time: the code under simulation loops without yielding (virtual time cannot advance)", stuck_limit_s());
+    let path = write_replay(check, seed, index, STUCK_RULE, &sc, &msg);
+    println!("violation: property={} rule={} seed={} index={} (not minimised): {}", check.id(), STUCK_RULE, seed, index, msg);
+    println!("VIOLATION property={} replay={}", check.id(), path.display());
+    let ev = json!({
+        "property_id": check.id(), "tier": tier.name(), "seed": seed, "level": check.level(),
+        "coverage": {"evaluations": index, "distinct_nontrivial": 0, "rule": check.rule_text(), "samples": [], "exhaustive": false, "aborted": STUCK_RULE},
+        "assumptions": check.assumptions(), "violations": 1,
+    });
+    let dir = out_dir().join("evidence");
+    let _ = std::fs::create_dir_all(&dir);
+    let _ = std::fs::write(dir.join(format!("{}.json", check.id())), serde_json::to_string_pretty(&ev).unwrap());
+    std::process::exit(1);
 }
 
 fn fails_with(check: &dyn Erased, sc: &Value, rule: &str) -> bool {
@@ -480,7 +538,28 @@ pub fn replay_file(checks: &[Box<dyn Erased>], path: &str) -> i32 {
         eprintln!("unknown property {id}");
         return 2;
     };
-    let Some(rep) = check.execute_json(&v["scenario"]) else {
+    // a replay of a run that never terminates must itself terminate
+    let limit = stuck_limit_s();
+    let scv = v["scenario"].clone();
+    let res = std::thread::scope(|s| {
+        let (tx, rx) = std::sync::mpsc::channel();
+        s.spawn(move || {
+            let _ = tx.send(check.execute_json(&scv));
+        });
+        match rx.recv_timeout(std::time::Duration::from_secs(limit)) {
+            Ok(r) => Some(r),
+            Err(_) => {
+                println!("replayed violation property={id} rule={STUCK_RULE} : the evaluation does not finish within {limit} s of real time");
+                if rule == STUCK_RULE {
+                    println!("VIOLATION property={id} replay={path}");
+                    std::process::exit(1);
+                }
+                println!("replay did not reproduce rule {rule}");
+                std::process::exit(0);
+            }
+        }
+    });
+    let Some(Some(rep)) = res else {
         eprintln!("scenario does not deserialise");
         return 2;
     };
